@@ -425,6 +425,11 @@ def run_check(prop, tier="quick", base=0, jobs=None, budget=None, runs=None, out
     say("simkit: %d runs (%d regression replays, grid %d), %d steps, %d distinct non-trivial, "
         "%.1fs, %d runs/h" % (agg["runs"], n_reg, grid_size, agg["stats"].get("steps", 0),
                               len(agg["keys"]), wall_s, evidence["coverage"]["runs_per_hour"]))
+    obs = agg["stats"].get("extended_observations") or {}
+    if obs:
+        # THREADS, extended mode (finer than the quantifier's granularity): recorded, not an alarm
+        say("simkit: observations of the extended mode (not alarms): %s" %
+            ", ".join("%s x%d" % (k, v) for k, v in sorted(obs.items())))
     for err in harness_errors[:10]:
         say("HARNESS-ERROR: %s" % err.strip().replace("\n", "\n    "))
     if unreported:
